@@ -663,6 +663,11 @@ pub fn run(tier: &str, rec: &Recorder) -> RunOutput {
 }
 
 pub fn replay(case: &str, rec: &Recorder) -> bool {
+    if case.starts_with("LL:") {
+        let mut c = Counters::default();
+        large_louvain_stage("thorough", rec, &mut c);
+        return rec.has_any();
+    }
     if case.starts_with("custom:") {
         let label = case.split('|').next().unwrap_or("");
         for tier in ["quick", "thorough"] {
